@@ -270,6 +270,20 @@ def replay_helpers(ctx: Ctx, recs: List[Dict[str, Any]]) -> None:
             e1, e2 = rad * r["out"][0], rad * r["out"][1]
             if not (abs(z1.item() - e1) <= 1e-14 * (1 + rad) and abs(z2.item() - e2) <= 1e-14 * (1 + rad)):
                 ctx.violation("helper:box_muller", "box_muller is not sqrt(-2 ln u1) (cos, sin)(2 pi u2)", {"case": c, "expected": [e1, e2], "observed": [z1.item(), z2.item()]})
+    # SVI with parameters that single precision cannot represent (0.1, 0.3, ...), float64 inputs: the documented formula to
+    # double precision, parameters given as Python numbers and as float64 tensors, function and module
+    for a, b, rho, m, sg in ((0.04, 0.4, -0.7, 0.1, 0.3), (0.01, 0.1, 0.3, -0.2, 0.1), (-0.03, 0.7, 0.9, 0.05, 1e-3)):
+        ks = [-1.3, -0.2, 0.0, 0.1, 0.7, 2.9]
+        k = torch.tensor(ks, dtype=dtype)
+        want = torch.tensor([a + b * (rho * (x - m) + math.sqrt((x - m) ** 2 + sg ** 2)) for x in ks], dtype=dtype)
+        t64 = lambda v: torch.tensor(v, dtype=dtype)   # noqa: E731
+        for label, got in (("svi_variance, Python-number parameters", F.svi_variance(k, a=a, b=b, rho=rho, m=m, sigma=sg)),
+                           ("SVIVariance module", SVIVariance(a=a, b=b, rho=rho, m=m, sigma=sg)(k)),
+                           ("svi_variance, float64 tensor parameters", F.svi_variance(k, a=t64(a), b=t64(b), rho=t64(rho), m=t64(m), sigma=t64(sg)))):
+            ctx.count(n=len(ks))
+            if got.dtype != dtype or not bool(((got - want).abs() <= 1e-14 * (1 + want.abs())).all()):
+                ctx.violation("helper:svi:double-precision", f"{label}: not a + b (rho (k-m) + sqrt((k-m)^2 + sigma^2)) to double precision on float64 inputs",
+                              {"a": a, "b": b, "rho": rho, "m": m, "sigma": sg, "max_abs_error": float((got.double() - want).abs().max()), "dtype": str(got.dtype)})
     # realized volatility = sqrt(realized variance), exact on power-of-two paths with a perfect-square result
     path = torch.tensor([[1.0, 4.0, 1.0, 4.0, 1.0], [2.0, 2.0, 2.0, 2.0, 2.0], [1.0, 2.0, 4.0, 8.0, 16.0]], dtype=dtype)
     var = F.realized_variance(path, dt=0.25)
